@@ -115,14 +115,21 @@ func cmdCheck(args []string) int {
 	var encMu sync.Mutex // encoding shares global caches; keep it sequential
 	sem := make(chan struct{}, 4)
 	for i, key := range roots {
-		fn := p.Func(key)
-		if fn == nil {
-			results[i] = &UnitResult{Key: key, Rejected: "no such function in the current tree"}
-			continue
+		var res *UnitResult
+		if strings.HasPrefix(key, "lemma:") {
+			encMu.Lock()
+			res = encodeLemma(p, db, strings.TrimPrefix(key, "lemma:"))
+			encMu.Unlock()
+		} else {
+			fn := p.Func(key)
+			if fn == nil {
+				results[i] = &UnitResult{Key: key, Rejected: "no such function in the current tree"}
+				continue
+			}
+			encMu.Lock()
+			res = encodeUnit(p, db, fn)
+			encMu.Unlock()
 		}
-		encMu.Lock()
-		res := encodeUnit(p, db, fn)
-		encMu.Unlock()
 		results[i] = res
 		wg.Add(1)
 		sem <- struct{}{}
